@@ -353,6 +353,53 @@ pub fn gen_inputs(cfg: &RunCfg) -> Vec<(String, String)> {
         }
         out.push(("notation-mix".into(), format!("Mix-Mod DEFINITIONS AUTOMATIC TAGS ::= BEGIN\n{prelude}{body}END\n")));
     }
+    // (1a') permitted alphabets and string values built from two operands of every kind, degenerate ones included
+    // (empty strings, empty and one-point ranges, characters of more than one byte), under both set operators and the
+    // three spellings; and constraints of every kind directly behind SIZE / FROM
+    let operands = ["\"abc\"", "\"\"", "\"a\"..\"z\"", "\"\"..\"z\"", "\"a\"..\"\"", "\"A\"..\"A\"", "\"Z\"..\"A\"", "\"é\"", "\"а\"..\"я\""];
+    let str_types = ["IA5String", "BMPString", "UTF8String", "PrintableString", "VisibleString"];
+    let mut k = 0usize;
+    for x in operands {
+        for y in operands {
+            for op in ["|", "^"] {
+                for spelling in 0..3 {
+                    let ty = str_types[k % str_types.len()];
+                    k += 1;
+                    let c = match spelling {
+                        0 => format!("(FROM ({x} {op} {y}))"),
+                        1 => format!("(FROM ({x}) {op} FROM ({y}))"),
+                        _ => format!("({x} {op} {y})"),
+                    };
+                    out.push(("alphabet-operands".into(), format!("Al-Mod DEFINITIONS AUTOMATIC TAGS ::= BEGIN\nA ::= {ty} {c}\nEND\n")));
+                }
+            }
+        }
+    }
+    // long texts of characters of two, three and four bytes in the places a warning or an error quotes, moved over
+    // every byte position by a pad of one-byte characters
+    for ch in ["é", "€", "𝄞"] {
+        for n in [40usize, 110, 200, 700] {
+            for pad in 0..4 {
+                let t = "a".repeat(pad) + &ch.repeat(n);
+                for form in [
+                    format!("F ::= IA5String (\"{t}\" .. \"x\" ^ \"b\" .. \"c\")"),
+                    format!("F ::= IA5String (FROM (\"{t}\" .. \"x\"))"),
+                    format!("F ::= UTF8String (FROM (\"{t}\") ^ FROM (\"a\"..\"c\"))"),
+                    format!("v UTF8String ::= \"{t}\"\nF ::= INTEGER (v)\nG ::= SEQUENCE {{ a INTEGER DEFAULT v }}"),
+                    format!("F ::= UTF8String (PATTERN \"{t}\") (SIZE (\"{t}\"))"),
+                ] {
+                    out.push(("long-multibyte".into(), format!("Lm-Mod DEFINITIONS AUTOMATIC TAGS ::= BEGIN\n{form}\nH ::= INTEGER (0..7)\nEND\n")));
+                }
+            }
+        }
+    }
+    let inner = ["CONTAINING INTEGER", "{Set}", "PATTERN \"x\"", "WITH COMPONENTS { ... }", "SIZE (1)", "FROM (\"a\")", "CONSTRAINED BY { }", "INCLUDES B", "B", "ALL EXCEPT 1", "MIN..MAX", "TRUE", "\"a\"", "{ 1 }", "..."];
+    for i in inner {
+        for (outer, ty) in [("SIZE", "OCTET STRING"), ("SIZE", "IA5String"), ("FROM", "IA5String"), ("SIZE", "SEQUENCE OF"), ("WITH COMPONENT", "SEQUENCE OF")] {
+            let t = if ty == "SEQUENCE OF" { format!("A ::= SEQUENCE ({outer} ({i})) OF INTEGER") } else { format!("A ::= {ty} ({outer} ({i}))") };
+            out.push(("constraint-in-constraint".into(), format!("Cc-Mod DEFINITIONS AUTOMATIC TAGS ::= BEGIN\nB ::= INTEGER (0..3)\n{t}\nEND\n")));
+        }
+    }
     for c in CYCLES {
         out.push(("cycle".into(), c.to_string()));
     }
